@@ -766,6 +766,22 @@ func checkReducersAndConstructors(in []int) *viol {
 			v = fail("wrong-output/Empty", "stream.Empty returned %v", err)
 			return
 		}
+		// Error: "immediately produces err from Next" (and keeps doing so; a reducer returns it)
+		{
+			e := fmt.Errorf("constructed error %d", len(in))
+			es := stream.Error[int](e)
+			for k := 0; k < 3; k++ {
+				if x, err := es.Next(ctx); err != e || x != 0 {
+					v = fail("wrong-output/Error", "stream.Error(e).Next #%d returned (%d,%v)", k+1, x, err)
+					return
+				}
+			}
+			es.Close()
+			if got, err := stream.Collect(ctx, stream.Join(stream.FromIterator(iterator.Slice(in)), stream.Error[int](e))); err != e || got != nil && len(got) > len(in) {
+				v = fail("wrong-output/Error", "Collect(Join(Slice(%v), Error(e))) = %v, %v", in, got, err)
+				return
+			}
+		}
 		// Last
 		for n := 0; n <= len(in)+2; n++ {
 			want := in
